@@ -730,7 +730,10 @@ def numpy_call(it, fn, d, e, env, argv, kw, args):
         w = kw["weights"]
         return V("num", w.u, w.s + (1 if it.c.track_s else 0), ("?",), kk=w.kk) if not w.wild else wild(("?",))
     if fn == "bincount":
-        ml = kw.get("minlength", argv[1] if len(argv) > 1 else None)
+        ml = kw.get("minlength", argv[2] if len(argv) > 2 else None)
+        par_ = getattr(e, "_parent", None)
+        if ml is None and "weights" not in kw and len(argv) < 2 and not (isinstance(par_, ast.Subscript) and par_.value is e):
+            it.violation("DIM.SHAPE", e, f"`{src(e)[:60]}` has no minlength: its length is the largest label present plus one, so the per-class count is shorter than the number of classes whenever the last classes are absent (an empty cluster, a block without samples of them) - adding or dividing it against a per-class array then fails or broadcasts wrongly")
         k = ml.count_of if ml is not None and ml.is_numlike and ml.count_of else (a0.index_of if a0 is not None and a0.index_of else "?")
         s = 1 if it.c.track_s else 0
         if a0 is not None and a0.sh is not None and a0.sh and a0.sh[0] != "N" and it.c.track_s:
